@@ -42,7 +42,12 @@ NA = {
 ENG = {'C03': 'E-MUT', 'C04': 'E-ALIAS', 'C06': 'E-STREAM', 'C08': 'E-ROUTE', 'C09': 'E-CACHE', 'C12': 'E-LSB0',
        'C14': 'E-ARRAY', 'C15': 'E-REJECT', 'C17': 'E-IO', 'C20': 'E-CHAOS'}
 
+# engines whose check has been validated on the unchanged tree (exit 0) - only these are claimed
+READY = {'C09', 'C12', 'C17'}
+
 def exists(p):
+    if p not in READY:
+        return False
     mod = ENGINES[p].split(':')[0].replace('.', '/') + '.py'
     return os.path.exists(os.path.join(V, mod))
 
